@@ -118,6 +118,9 @@ def generate(seed: int, tier: str) -> Dict[str, Any]:
                                                     "include_top_k_snippets": r.choice([0, 2])}
         if r.chance(0.4):
             raw.setdefault("t3", {})["tokens"] = r.choice([1, 2, 3])
+        if r.chance(0.4):
+            th, tl = r.choice(_TAUS), r.choice(_TAUS)
+            raw.setdefault("t3", {})["policy"] = {"tau_high": max(th, tl), "tau_low": min(th, tl), "epsilon_edit": r.choice([0.0, 0.05, 0.1, 0.5])}
         ops = E.gen_ops(rng.stream("ops"), world, r.randint(2, 5), p_mut=0.1)
         return {"target": "turns", "world": world, "cfg": raw, "ops": ops, "style_prefix": r.choice(["", "calm", "two words", "very calm indeed", "a|b c"])}
     script = []
@@ -397,8 +400,12 @@ def _turns(p: Dict[str, Any], stats: Dict[str, int]) -> List[Dict[str, Any]]:
                             stats["multi_op_plans"] = stats.get("multi_op_plans", 0) + 1
                         if len(ops) > cap:
                             bad("ops-exceed-cap", "%d ops, cap min(%s, %s); %s" % (len(ops), base_ops, slice_cap, ctxs))
-                        pol = (b.get("cfg", {}).get("t3", {}) or {}).get("policy", {}) or {}
+                        # the thresholds are the configured ones (t3.policy), not whatever part of the
+                        # configuration the bundle happens to carry
+                        pol = t3.get("policy") or {}
                         th, tl = float(pol.get("tau_high", 0.8)), float(pol.get("tau_low", 0.4))
+                        if pol:
+                            stats["turns_with_configured_thresholds"] = stats.get("turns_with_configured_thresholds", 0) + 1
                         s_max = float((b.get("t2", {}).get("metrics", {}).get("sim_stats", {}) or {}).get("max", 0.0))
                         if ops:
                             if getattr(ops[0], "kind", None) != "Speak":
